@@ -702,6 +702,8 @@ def _install(M):
             if isinstance(tt, ModRef) and tt.dotted in ("numbers.Real", "numbers.Number", "numbers.Complex") \
                     and V.sort_of(x) in ("int", "real"):
                 return True
+            if isinstance(tt, ModRef) and tt.dotted == "numbers.Integral" and V.sort_of(x) == "int":
+                return True
             if isinstance(tt, ModRef) and tt.dotted in ("numbers.Number", "numbers.Complex") and V.sort_of(x) == "cx":
                 return True
         return False
@@ -994,6 +996,86 @@ def _install(M):
         if isinstance(x, SymArr):
             return tuple(x.shape)
         raise Unsupported("numpy.shape of %r @%s" % (x, l))
+
+    @reg("numpy.linspace")
+    def _linspace(ex, a, k, l):
+        """numpy.linspace(start, stop, num)[i] = start + i*(stop-start)/(num-1)  (num = 1: [start]); endpoint=True"""
+        start, stop = a[0], a[1]
+        num = a[2] if len(a) > 2 else k.get("num", 50)
+        if k.get("endpoint", True) is not True:
+            raise Unsupported("numpy.linspace(endpoint=False) @%s" % l)
+        ex.oblige("linspace-length-nonnegative", compare(">=", num, 0), "precondition", l)
+        one = compare("==", num, 1)
+
+        def cell(idx):
+            i = idx[0]
+            den = ite(one, 1, arith("-", num, 1))
+            return arith("+", start, arith("/", arith("*", i, arith("-", stop, start)), den))
+        return lam_array((num,), "real", cell)
+
+    def _wroot(kk, n):
+        """W(k, n) = exp(2 pi i k / n): an uninterpreted pair of real functions of two integers"""
+        fre = V._ufuns.setdefault("W_re/2i", z3.Function("u_W_re", z3.IntSort(), z3.IntSort(), z3.RealSort()))
+        fim = V._ufuns.setdefault("W_im/2i", z3.Function("u_W_im", z3.IntSort(), z3.IntSort(), z3.RealSort()))
+        return Cx(fre(V.z3int(kk), V.z3int(n)), fim(V.z3int(kk), V.z3int(n)))
+    M.table["Wroot"] = Builtin("spec:Wroot", lambda ex, a, k, l: _wroot(a[0], a[1]))
+
+    def _fft_like(x, sign, scaled, l):
+        if not (isinstance(x, SymArr) and len(x.shape) == 1):
+            raise Unsupported("numpy.fft of %r @%s" % (x, l))
+        n = x.shape[0]
+        from .sums import mk_sum
+
+        def cell(idx):
+            m = idx[0]
+            tot = mk_sum(None, n, lambda j: arith("*", Cx.of(x.get([j])), _wroot(arith("*", sign, arith("*", j, m)), n)))
+            return arith("/", tot, n) if scaled else tot
+        return lam_array((n,), "cx", cell)
+
+    @reg("numpy.fft.ifft")
+    def _ifft(ex, a, k, l):
+        """numpy.fft.ifft(x)[m] = (1/n) sum_j x[j] exp(+2 pi i j m / n)"""
+        return _fft_like(a[0], 1, True, l)
+
+    @reg("numpy.fft.fft")
+    def _fft(ex, a, k, l):
+        """numpy.fft.fft(x)[m] = sum_j x[j] exp(-2 pi i j m / n)"""
+        return _fft_like(a[0], -1, False, l)
+
+    def _roll(x, shift_of_n, l):
+        if not (isinstance(x, SymArr) and len(x.shape) == 1):
+            raise Unsupported("numpy.fft shift of %r @%s" % (x, l))
+        n = x.shape[0]
+        s_ = shift_of_n(n)
+
+        def cell(idx):
+            # x[(i - s) mod n]  for 0 <= i, s < n, written without mod
+            i = idx[0]
+            src = ite(compare(">=", i, s_), arith("-", i, s_), arith("+", arith("-", i, s_), n))
+            return x.get([src])
+        return lam_array((n,), x.dtype, cell)
+
+    @reg("numpy.fft.fftshift")
+    def _fftshift(ex, a, k, l):
+        """numpy.fft.fftshift(x) = roll(x, n//2):  out[i] = x[(i - n//2) mod n]"""
+        return _roll(a[0], lambda n: arith("//", n, 2), l)
+
+    @reg("numpy.fft.ifftshift")
+    def _ifftshift(ex, a, k, l):
+        """numpy.fft.ifftshift(x) = roll(x, -(n//2)):  out[i] = x[(i + n//2) mod n] = x[(i - (n - n//2)) mod n]"""
+        return _roll(a[0], lambda n: arith("-", n, arith("//", n, 2)), l)
+
+    @reg("numpy.fft.fftfreq")
+    def _fftfreq(ex, a, k, l):
+        """numpy.fft.fftfreq(n, d)[i] = (i if i <= (n-1)//2 else i - n) / (n d)"""
+        n = a[0]
+        d = a[1] if len(a) > 1 else k.get("d", 1.0)
+
+        def cell(idx):
+            i = idx[0]
+            num = ite(compare("<=", i, arith("//", arith("-", n, 1), 2)), i, arith("-", i, n))
+            return arith("/", num, arith("*", n, d))
+        return lam_array((n,), "real", cell)
 
     @reg("numpy.transpose")
     def _ntr(ex, a, k, l):
